@@ -3,6 +3,7 @@ package main
 // Intrinsics: sync monitors, channels, maps, goroutines, range iteration.
 
 import (
+	"go/token"
 	"fmt"
 	"go/types"
 	"os"
@@ -483,8 +484,15 @@ func (x *Exec) chanRecv(st *State, fr *Frame, v *ssa.UnOp) {
 	if x.dry {
 		x.dryEff.ghost[cntKey] = true
 	}
+	// drained(ch): the last receive on ch reported that the channel is closed and empty (only a `v, ok := <-ch`
+	// or a range loop can tell)
+	st.ghost[chanKey(ch)+"!drained"] = FalseT
+	if x.dry {
+		x.dryEff.ghost[chanKey(ch)+"!drained"] = true
+	}
 	if v.CommaOk {
 		okv := x.E.fresh("recvok", BoolS)
+		st.ghost[chanKey(ch)+"!drained"] = Not(okv)
 		zero := x.zeroVal(et)
 		L := make([]*Term, 0, len(val.L)+1)
 		for i := range val.L {
@@ -492,9 +500,19 @@ func (x *Exec) chanRecv(st *State, fr *Frame, v *ssa.UnOp) {
 		}
 		L = append(L, okv)
 		st.regs[v] = Val{T: v.Type(), L: L}
+		x.recvEvent(st, fr, v, ch, val)
 		return
 	}
 	st.regs[v] = val
+	x.recvEvent(st, fr, v, ch, val)
+}
+
+// recvEvent: a channel receive is a named event ("at call K of recv assert|set ..." with arg.ch; result is the value).
+func (x *Exec) recvEvent(st *State, fr *Frame, v *ssa.UnOp, ch, val Val) {
+	x.curSite = v
+	x.atCallAsserts(st, fr, "recv", []string{"ch"}, []Val{ch}, x.pos(v.Pos()))
+	sets := x.withGhostSets(fr, "recv", []string{"ch"}, []Val{ch}, nil, func(*State, Val) {})
+	sets(st, Val{})
 }
 
 func (x *Exec) chanClose(st *State, fr *Frame, ch Val, where string) {
@@ -811,6 +829,11 @@ func (E *Engine) siteOrdinal(fn *ssa.Function, site ssa.Instruction, callee stri
 				if snd, isSend := in.(*ssa.Send); isSend {
 					n++
 					all = append(all, cs{snd, "send", n})
+					continue
+				}
+				if u, isRecv := in.(*ssa.UnOp); isRecv && u.Op == token.ARROW {
+					n++
+					all = append(all, cs{u, "recv", n})
 					continue
 				}
 				ci, ok := in.(ssa.CallInstruction)
